@@ -5,6 +5,7 @@ from .common import *   # noqa: F401,F403
 from . import linegen as lg
 
 KS = ["KNote", "KSP", "KTev"]
+LEAF = ['Leaf_dispatch', 'Leaf_tracks']      # translated functions this property's model relies on (Tie/<name>.v)
 RULE = ("every generated line is given to NoteEvent/StarPowerEvent/TrackEvent.ParsedData.from_chart_line (all three kinds on every line): canonical N/S/E lines with 1-20 digit numbers, "
         "leading zeros, pads of blanks/tabs/U+00A0/U+3000, non-ASCII decimal digits, trailing newline, E words containing tabs, quotes, '='; canonical lines of the other six kinds; "
         "a fixed list of near misses (N 8, N 07, S 1, S 64, two words, tab separators, ...) and single-character mutations of canonical lines; judged against the reference "
